@@ -137,51 +137,51 @@ Proof.
   intros H. eqb_split; try reflexivity; try discriminate; try congruence.
 Qed.
 
+Lemma verify_args_ok maxexp s ent n signers ok :
+  verify_register_node_args maxexp s ent n signers ok = COk ->
+  ok = true /\ nmem (n_id n) (e_nodes ent) = true /\
+  (forall k, In k (n_id n :: keys n) -> In k signers) /\
+  (forall k, In k (keys n) -> dup_subkey s n k = false) /\
+  has_dup (keys n) = false /\
+  is_only_signed_by signers [n_id n; n_cons n; n_vrf n; n_tls n; n_p2p n] = true /\
+  (0 <? maxexp) && (s_epoch s + maxexp <? n_exp n) = false.
+Proof.
+  unfold verify_register_node_args. intros H. if_ok H.
+  apply negb_false_iff in E, E0, E1, E3, E4, E5, E6, E9.
+  apply orb_false_iff in E7 as [E7 Ev]. apply orb_false_iff in E7 as [E7 Et].
+  apply orb_false_iff in E7 as [Ec Ep].
+  repeat split; auto.
+  - intros k Hk. unfold is_signed_by in *. cbn [In keys] in Hk.
+    apply nmem_In. intuition (subst; assumption).
+  - intros k Hk. cbn [In keys] in Hk. intuition (subst; assumption).
+  - apply has_dup_keys. exact E8.
+Qed.
+
+Lemma reg_node_ok maxexp s txs n signers ok :
+  reg_node_check maxexp s txs n signers ok = COk ->
+  (exists ent, aget (n_ent n) (s_ents s) = Some ent /\ nmem (n_id n) (e_nodes ent) = true) /\
+  ok = true /\ txs = n_id n /\
+  (forall k, In k (n_id n :: keys n) -> In k signers) /\
+  (forall k, In k (keys n) -> dup_subkey s n k = false) /\
+  has_dup (keys n) = false /\
+  (forall cur, aget (n_id n) (s_nodes s) = Some cur -> n_ent cur = n_ent n /\ n_cons cur = n_cons n) /\
+  s_epoch s < n_exp n.
+Proof.
+  unfold reg_node_check. intros H.
+  destruct (aget (n_ent n) (s_ents s)) as [ent|] eqn:Eent; [|discriminate].
+  destruct (verify_register_node_args maxexp s ent n signers ok) eqn:EV; try discriminate.
+  apply verify_args_ok in EV as (Hok & Hmem & Hs & Hd & Hdup & _ & _).
+  if_ok H. apply negb_false_iff in E. apply N.eqb_eq in E. apply N.leb_gt in E0.
+  repeat split; eauto.
+  - rewrite H0 in H. unfold verify_node_update in H. if_ok H.
+    apply negb_false_iff in E2. apply N.eqb_eq in E2. exact E2.
+  - rewrite H0 in H. unfold verify_node_update in H. if_ok H.
+    apply negb_false_iff in E3. apply N.eqb_eq in E3. exact E3.
+Qed.
+
 Section Reg.
   Variable addr : N -> N.
   Variables maxexp debond : N.
-
-  Lemma verify_args_ok s ent n signers ok :
-    verify_register_node_args maxexp s ent n signers ok = COk ->
-    ok = true /\ nmem (n_id n) (e_nodes ent) = true /\
-    (forall k, In k (n_id n :: keys n) -> In k signers) /\
-    (forall k, In k (keys n) -> dup_subkey s n k = false) /\
-    has_dup (keys n) = false /\
-    is_only_signed_by signers [n_id n; n_cons n; n_vrf n; n_tls n; n_p2p n] = true /\
-    (0 <? maxexp) && (s_epoch s + maxexp <? n_exp n) = false.
-  Proof.
-    unfold verify_register_node_args. intros H. if_ok H.
-    apply negb_false_iff in E, E0, E1, E3, E4, E5, E6, E9.
-    apply orb_false_iff in E7 as [E7 Ev]. apply orb_false_iff in E7 as [E7 Et].
-    apply orb_false_iff in E7 as [Ec Ep].
-    repeat split; auto.
-    - intros k Hk. unfold is_signed_by in *. cbn [In keys] in Hk.
-      apply nmem_In. intuition (subst; assumption).
-    - intros k Hk. cbn [In keys] in Hk. intuition (subst; assumption).
-    - apply has_dup_keys. exact E8.
-  Qed.
-
-  Lemma reg_node_ok s txs n signers ok :
-    reg_node_check maxexp s txs n signers ok = COk ->
-    (exists ent, aget (n_ent n) (s_ents s) = Some ent /\ nmem (n_id n) (e_nodes ent) = true) /\
-    ok = true /\ txs = n_id n /\
-    (forall k, In k (n_id n :: keys n) -> In k signers) /\
-    (forall k, In k (keys n) -> dup_subkey s n k = false) /\
-    has_dup (keys n) = false /\
-    (forall cur, aget (n_id n) (s_nodes s) = Some cur -> n_ent cur = n_ent n /\ n_cons cur = n_cons n) /\
-    s_epoch s < n_exp n.
-  Proof.
-    unfold reg_node_check. intros H.
-    destruct (aget (n_ent n) (s_ents s)) as [ent|] eqn:Eent; [|discriminate].
-    destruct (verify_register_node_args maxexp s ent n signers ok) eqn:EV; try discriminate.
-    apply verify_args_ok in EV as (Hok & Hmem & Hs & Hd & Hdup & _ & _).
-    if_ok H. apply negb_false_iff in E. apply N.eqb_eq in E. apply N.leb_gt in E0.
-    repeat split; eauto.
-    - rewrite H0 in H. unfold verify_node_update in H. if_ok H.
-      apply negb_false_iff in E2. apply N.eqb_eq in E2. exact E2.
-    - rewrite H0 in H. unfold verify_node_update in H. if_ok H.
-      apply negb_false_iff in E3. apply N.eqb_eq in E3. exact E3.
-  Qed.
 
   Lemma set_node_inv fixed s ex n claims' :
     Inv_index s -> ex = aget (n_id n) (s_nodes s) ->
@@ -281,3 +281,254 @@ Proof.
   unfold Inv_index, IDS, KM_ok, BE_ok, st0; cbn. repeat split; try discriminate.
   all: intros [n [H _]]; discriminate.
 Qed.
+
+(* ---------- what the invariant says about lookups ---------- *)
+Lemma no_key_two_nodes s id1 id2 n1 n2 k :
+  Inv_index s -> aget id1 (s_nodes s) = Some n1 -> aget id2 (s_nodes s) = Some n2 ->
+  In k (keys n1) -> In k (keys n2) -> id1 = id2.
+Proof.
+  intros (_ & Hkm & _) H1 H2 K1 K2.
+  assert (A : aget k (s_keymap s) = Some id1) by (apply Hkm; eauto).
+  assert (B : aget k (s_keymap s) = Some id2) by (apply Hkm; eauto). congruence.
+Qed.
+
+Lemma found_under_each_key s id n k :
+  Inv_index s -> aget id (s_nodes s) = Some n -> In k (keys n) -> node_by_subkey s k = Some n.
+Proof.
+  intros (_ & Hkm & _) H1 K1. unfold node_by_subkey.
+  assert (A : aget k (s_keymap s) = Some id) by (apply Hkm; eauto). rewrite A. exact H1.
+Qed.
+
+Lemma subkey_resolves_to_holder s k n :
+  Inv_index s -> node_by_subkey s k = Some n ->
+  In k (keys n) /\ aget (n_id n) (s_nodes s) = Some n.
+Proof.
+  intros (Hids & Hkm & _) H. unfold node_by_subkey in H.
+  destruct (aget k (s_keymap s)) as [id|] eqn:E; [|discriminate].
+  apply Hkm in E as [m [Hm Hk]]. rewrite Hm in H. injection H as <-.
+  rewrite (Hids _ _ Hm). auto.
+Qed.
+
+Lemma entity_nodes_mirror s e :
+  Inv_index s ->
+  (has_entity_nodes s e = true <-> exists id n, aget id (s_nodes s) = Some n /\ n_ent n = e).
+Proof.
+  intros (_ & _ & Hbe). unfold has_entity_nodes. rewrite has_fst_spec. split.
+  - intros [id H]. apply Hbe in H as [n Hn]. eauto.
+  - intros [id [n Hn]]. exists id. apply Hbe. eauto.
+Qed.
+
+(* ---------- the refutation witness: an update that exchanges P2P and TLS ---------- *)
+Definition wit_ops : list op :=
+  [TRegEntity 1 (mkEnt 1 [4]) 1 true;
+   TRegNode 4 (mkNode 4 1 8 9 10 11 2) [4; 9; 8; 11; 10] true].
+Definition wit_op : op := TRegNode 4 (mkNode 4 1 8 11 10 9 2) [4; 11; 8; 9; 10] true.
+
+Lemma Inv_index_refuted_l (addr : N -> N) :
+  exists s o, Inv_index s /\ tx_op o = true /\
+              fst (step addr false 5 2 s o) = COk /\
+              ~ Inv_index (snd (step addr false 5 2 s o)).
+Proof.
+  exists (run addr false 5 2 wit_ops st0), wit_op. split; [|split; [reflexivity|split]].
+  - apply run_inv_no_exchange; [exact Inv_st0|reflexivity|].
+    cbn [no_exchange_run wit_ops no_exchange]. split; [exact I|]. split; [|exact I].
+    intros old H. vm_compute in H. discriminate.
+  - vm_compute. reflexivity.
+  - intros H.
+    pose proof (found_under_each_key _ 4 (mkNode 4 1 8 11 10 9 2) 11 H) as F.
+    vm_compute in F. specialize (F eq_refl (or_intror (or_introl eq_refl))). discriminate.
+Qed.
+
+(* the same update under the reordered SetNode keeps the invariant: non-vacuity
+   of the hypotheses of the positive theorems *)
+Example exchange_ok_when_fixed (addr : N -> N) :
+  Inv_index (run addr true 5 2 (wit_ops ++ [wit_op]) st0) /\
+  node_by_subkey (run addr true 5 2 (wit_ops ++ [wit_op]) st0) 11 = Some (mkNode 4 1 8 11 10 9 2).
+Proof.
+  split; [apply run_inv_fixed; [exact Inv_st0|reflexivity]|vm_compute; reflexivity].
+Qed.
+
+Example no_exchange_history_nonvacuous (addr : N -> N) :
+  let ops := wit_ops ++ [TRegNode 4 (mkNode 4 1 8 12 13 14 3) [4; 12; 8; 14; 13] true; TEpoch 6] in
+  no_exchange_run addr 5 2 ops st0 /\ forallb tx_op ops = true /\
+  s_nodes (run addr false 5 2 (wit_ops ++ [TRegNode 4 (mkNode 4 1 8 12 13 14 3) [4; 12; 8; 14; 13] true]) st0)
+  = [(4, mkNode 4 1 8 12 13 14 3)].
+Proof.
+  cbn zeta. split; [|split; [reflexivity|vm_compute; reflexivity]].
+  cbn [no_exchange_run app wit_ops no_exchange]. repeat split.
+  - intros old H. vm_compute in H. discriminate.
+  - intros old H. vm_compute in H. injection H as <-. vm_compute. reflexivity.
+Qed.
+
+(* ---------- authority ---------- *)
+Section Auth.
+  Variable addr : N -> N.
+  Variable fixed : bool.
+  Variables maxexp debond : N.
+  Notation stp := (step addr fixed maxexp debond).
+
+  Lemma reject_unchanged s o c s' : stp s o = (c, s') -> c <> COk -> s' = s.
+  Proof.
+    destruct o; cbn [step]; intros H Hc;
+      try (injection H as <- <-; congruence).
+    - destruct (aget id (s_nodes s)); injection H as <- <-; congruence.
+    - destruct (reg_entity_check txs e dsigner sig_ok); injection H as <- <-; congruence.
+    - destruct (dereg_entity_check s txs); injection H as <- <-; congruence.
+    - destruct (reg_node_check maxexp s txs n dsigners sig_ok); injection H as <- <-; congruence.
+  Qed.
+
+  Lemma missing_signature_rejected s txs n signers ok k :
+    In k (n_id n :: keys n) -> ~ In k signers ->
+    fst (stp s (TRegNode txs n signers ok)) <> COk /\ snd (stp s (TRegNode txs n signers ok)) = s.
+  Proof.
+    intros Hk Hn. cbn [step].
+    destruct (reg_node_check maxexp s txs n signers ok) eqn:EC;
+      cbn [fst snd]; try (split; [discriminate|reflexivity]).
+    exfalso. apply reg_node_ok in EC as (_ & _ & _ & Hs & _). apply Hn, Hs, Hk.
+  Qed.
+
+  Lemma wrong_tx_signer_rejected s txs n signers ok :
+    txs <> n_id n -> fst (stp s (TRegNode txs n signers ok)) <> COk /\ snd (stp s (TRegNode txs n signers ok)) = s.
+  Proof.
+    intros Hne. cbn [step].
+    destruct (reg_node_check maxexp s txs n signers ok) eqn:EC;
+      cbn [fst snd]; try (split; [discriminate|reflexivity]).
+    exfalso. apply reg_node_ok in EC as (_ & _ & Ht & _). congruence.
+  Qed.
+
+  Lemma not_in_entity_list_rejected s txs n signers ok :
+    (forall ent, aget (n_ent n) (s_ents s) = Some ent -> ~ In (n_id n) (e_nodes ent)) ->
+    fst (stp s (TRegNode txs n signers ok)) <> COk /\ snd (stp s (TRegNode txs n signers ok)) = s.
+  Proof.
+    intros Hne. cbn [step].
+    destruct (reg_node_check maxexp s txs n signers ok) eqn:EC;
+      cbn [fst snd]; try (split; [discriminate|reflexivity]).
+    exfalso. apply reg_node_ok in EC as ((ent & He & Hm) & _). apply (Hne _ He). apply nmem_In. exact Hm.
+  Qed.
+
+  Lemma epoch_fold_ents e l : forall s, s_ents (fold_left (epoch_one addr debond e) l s) = s_ents s.
+  Proof.
+    induction l as [|id r IH]; intros s; [reflexivity|]. cbn [fold_left]. rewrite IH.
+    unfold epoch_one. destruct (aget id (s_nodes s)) as [n|]; [|reflexivity].
+    destruct ((n_exp n <? e) && (n_exp n + debond <? e)); reflexivity.
+  Qed.
+
+  (* nodes after an epoch transition: untouched, or removed after expiry + debonding *)
+  Lemma epoch_fold_nodes e l : forall s, IDS (s_nodes s) ->
+    IDS (s_nodes (fold_left (epoch_one addr debond e) l s)) /\
+    forall id, aget id (s_nodes (fold_left (epoch_one addr debond e) l s)) = aget id (s_nodes s) \/
+               (aget id (s_nodes (fold_left (epoch_one addr debond e) l s)) = None /\
+                exists n, aget id (s_nodes s) = Some n /\ n_exp n + debond < e).
+  Proof.
+    induction l as [|id0 r IH]; intros s Hids; [split; [exact Hids|intros; left; reflexivity]|].
+    cbn [fold_left].
+    assert (Hone : IDS (s_nodes (epoch_one addr debond e s id0)) /\
+                   forall id, aget id (s_nodes (epoch_one addr debond e s id0)) = aget id (s_nodes s) \/
+                              (aget id (s_nodes (epoch_one addr debond e s id0)) = None /\
+                               exists n, aget id (s_nodes s) = Some n /\ n_exp n + debond < e)).
+    { unfold epoch_one. destruct (aget id0 (s_nodes s)) as [n|] eqn:En; [|split; [exact Hids|auto]].
+      destruct ((n_exp n <? e) && (n_exp n + debond <? e)) eqn:Ec; [|split; [exact Hids|auto]].
+      cbn [s_nodes with_claims remove_node with_nodes with_byent with_addr with_keymap].
+      split; [apply ids_del; exact Hids|]. intros id. rewrite aget_adel_gen.
+      pose proof (Hids _ _ En) as Hid. rewrite Hid.
+      destruct (N.eqb_spec id0 id) as [<-|Hne]; [|left; reflexivity].
+      right. split; [reflexivity|]. exists n. split; [exact En|].
+      apply andb_true_iff in Ec as [_ Ec]. apply N.ltb_lt in Ec. exact Ec. }
+    destruct Hone as [Hids1 H1]. destruct (IH _ Hids1) as [Hids2 H2]. split; [exact Hids2|].
+    intros id. destruct (H2 id) as [A|[A [n [B C]]]].
+    - rewrite A. apply H1.
+    - destruct (H1 id) as [D|[D _]].
+      + right. split; [exact A|]. exists n. rewrite <- D. auto.
+      + rewrite D in B. discriminate.
+  Qed.
+
+  Lemma step_ids s o : tx_op o = true -> IDS (s_nodes s) -> IDS (s_nodes (snd (stp s o))).
+  Proof.
+    intros Htx H. destruct o; try discriminate; cbn [step]; try exact H.
+    - destruct (reg_entity_check txs e dsigner sig_ok); exact H.
+    - destruct (dereg_entity_check s txs); exact H.
+    - destruct (reg_node_check maxexp s txs n dsigners sig_ok); try exact H.
+      cbn [snd set_node s_nodes with_claims with_nodes with_byent with_addr with_keymap]. apply ids_set. exact H.
+    - cbn [snd]. unfold epoch_change. apply epoch_fold_nodes. exact H.
+  Qed.
+
+  Lemma authority_node s o s' id :
+    tx_op o = true -> IDS (s_nodes s) -> stp s o = (COk, s') ->
+    aget id (s_nodes s') <> aget id (s_nodes s) ->
+    (exists txs n signers,
+        o = TRegNode txs n signers true /\ n_id n = id /\ txs = id /\
+        (forall k, In k (id :: keys n) -> In k signers) /\
+        (exists ent, aget (n_ent n) (s_ents s) = Some ent /\ In id (e_nodes ent)) /\
+        (forall cur, aget id (s_nodes s) = Some cur -> n_ent cur = n_ent n /\ n_cons cur = n_cons n) /\
+        aget id (s_nodes s') = Some n)
+    \/ (exists e n, o = TEpoch e /\ aget id (s_nodes s) = Some n /\
+                    aget id (s_nodes s') = None /\ n_exp n + debond < e).
+  Proof.
+    intros Htx Hids H Hch. destruct o; try discriminate; cbn [step] in H.
+    - injection H as <-. exfalso. apply Hch. reflexivity.
+    - injection H as <-. exfalso. apply Hch. reflexivity.
+    - destruct (reg_entity_check txs e dsigner sig_ok); try discriminate; injection H as <-; exfalso; apply Hch; reflexivity.
+    - destruct (dereg_entity_check s txs); try discriminate; injection H as <-; exfalso; apply Hch; reflexivity.
+    - destruct (reg_node_check maxexp s txs n dsigners sig_ok) eqn:EC; try discriminate.
+      injection H as <-.
+      cbn [set_node s_nodes with_claims with_nodes with_byent with_addr with_keymap] in Hch |- *.
+      rewrite aget_aset_gen in Hch |- *.
+      destruct (N.eqb_spec (n_id n) id) as [E|Hne]; [|exfalso; apply Hch; reflexivity].
+      apply reg_node_ok in EC as ((ent & He & Hm) & Hok & Ht & Hs & _ & _ & Hcur & _).
+      left. exists txs, n, dsigners. subst sig_ok. rewrite <- E.
+      repeat split; auto.
+      + exists ent. split; [exact He|]. apply nmem_In. exact Hm.
+      + apply Hcur. exact H.
+      + apply Hcur. exact H.
+    - injection H as <-. unfold epoch_change in Hch |- *.
+      destruct (epoch_fold_nodes e (sorted_ids s) (with_epoch s e) Hids) as [_ Hn].
+      destruct (Hn id) as [A|[A [n [B C]]]]; [exfalso; apply Hch; exact A|].
+      right. exists e, n. auto.
+  Qed.
+
+  Lemma authority_entity s o s' e :
+    tx_op o = true -> stp s o = (COk, s') -> aget e (s_ents s') <> aget e (s_ents s) ->
+    (exists ent, o = TRegEntity e ent e true /\ e_id ent = e /\ ~ has_dup (e_nodes ent) = true /\
+                 aget e (s_ents s') = Some ent)
+    \/ (o = TDeregEntity e /\ has_entity_nodes s e = false /\ has_entity_runtimes s e = false /\
+        aget e (s_ents s') = None).
+  Proof.
+    intros Htx H Hch. destruct o; try discriminate; cbn [step] in H.
+    - injection H as <-. exfalso. apply Hch. reflexivity.
+    - injection H as <-. exfalso. apply Hch. reflexivity.
+    - destruct (reg_entity_check txs e0 dsigner sig_ok) eqn:EC; try discriminate.
+      injection H as <-. cbn [s_ents with_ents with_claims] in Hch |- *.
+      rewrite aget_aset_gen in Hch |- *.
+      destruct (N.eqb_spec (e_id e0) e) as [E|Hne]; [|exfalso; apply Hch; reflexivity].
+      unfold reg_entity_check in EC. if_ok EC.
+      apply negb_false_iff in E0, E1, E3. apply N.eqb_eq in E1, E3. subst.
+      left. exists e0. repeat split; auto. rewrite E2. discriminate.
+    - destruct (dereg_entity_check s txs) eqn:EC; try discriminate.
+      injection H as <-. cbn [s_ents with_ents with_claims] in Hch |- *.
+      rewrite aget_adel_gen in Hch |- *.
+      destruct (N.eqb_spec txs e) as [E|Hne]; [|exfalso; apply Hch; reflexivity].
+      unfold dereg_entity_check in EC. if_ok EC. subst. right. auto.
+    - destruct (reg_node_check maxexp s txs n dsigners sig_ok); try discriminate.
+      injection H as <-. exfalso. apply Hch. reflexivity.
+    - injection H as <-. exfalso. apply Hch. unfold epoch_change. rewrite epoch_fold_ents. reflexivity.
+  Qed.
+
+  (* ---------- an entity cannot be removed while it owns nodes or runtimes ---------- *)
+  Lemma entity_not_removable_while_owning_nodes s e id n :
+    Inv_index s -> aget id (s_nodes s) = Some n -> n_ent n = e ->
+    stp s (TDeregEntity e) = (CEntityHasNodes, s).
+  Proof.
+    intros Hinv Hn He. cbn [step]. unfold dereg_entity_check.
+    assert (H : has_entity_nodes s e = true) by (apply entity_nodes_mirror; eauto).
+    rewrite H. reflexivity.
+  Qed.
+
+  Lemma entity_not_removable_while_owning_runtimes s e rt :
+    pmem (e, rt) (s_rtown s) = true -> has_entity_nodes s e = false ->
+    stp s (TDeregEntity e) = (CEntityHasRuntimes, s).
+  Proof.
+    intros Hr Hn. cbn [step]. unfold dereg_entity_check. rewrite Hn.
+    assert (H : has_entity_runtimes s e = true) by (apply has_fst_spec; eauto).
+    rewrite H. reflexivity.
+  Qed.
+End Auth.
